@@ -145,25 +145,25 @@ example : Sized arith (fn [int] int) 5 good = true ∧ Sized arith (fn [int] int
     the start symbol and every row is exactly the row of the rule-creation step - for every
     builder, DSL, request and fuel. -/
 theorem C13_saturation {S T : Type} [DecidableEq S] [DecidableEq T] (B : Builder S T) (prims : List Sym)
-    (request : Ty) (fuel : Nat) (G : TT S T) (h : saturationTable B prims request fuel = some G) :
+    (request : Ty) (stackKey : Bool) (fuel : Nat) (G : TT S T) (h : saturationTable B prims request stackKey fuel = some G) :
     G.start = startOf B request ∧ (AList.keys G.rules).Nodup ∧ AList.contains G.start G.rules = true ∧
     ∀ e ∈ G.rules, e.2 = rowDict B prims request e.1 :=
-  saturationTable_spec B prims request fuel G h
+  saturationTable_spec B prims request stackKey fuel G h
 
 /-- the model's grammar derives only what the rule creation derives -/
 theorem model_sound {S T : Type} [DecidableEq S] [DecidableEq T] (B : Builder S T) (dsl : Dsl) (request : Ty)
-    (fuel : Nat) (G0 G : TT S T) (h0 : saturationTable B dsl.prims request fuel = some G0)
+    (stackKey : Bool) (fuel : Nat) (G0 G : TT S T) (h0 : saturationTable B dsl.prims request stackKey fuel = some G0)
     (h1 : clean G0 fuel = .ok G) (t : Prog) (hin : inLang G t = true) :
     (run (idealFn B dsl request) t (request.returns, B.init.1) B.init.2).isSome = true := by
   have hs : G.start = startOf B request := by
-    rw [clean_start G0 G fuel h1]; exact (saturationTable_spec B dsl.prims request fuel G0 h0).1
+    rw [clean_start G0 G fuel h1]; exact (saturationTable_spec B dsl.prims request stackKey fuel G0 h0).1
   unfold inLang at hin
   rw [hs] at hin
   cases hr : run G.rule? t ((startOf B request).1, (startOf B request).2.1) (startOf B request).2.2 with
   | none => simp [hr] at hin
   | some w =>
     have h2 := clean_sound G0 G fuel h1 t _ _ w hr
-    have h3 := (run_mono _ _ (saturation_rule B dsl request fuel G0 h0)).1 t _ _ w h2
+    have h3 := (run_mono _ _ (saturation_rule B dsl request stackKey fuel G0 h0)).1 t _ _ w h2
     simp only [startOf] at h3
     simp [h3]
 
@@ -171,11 +171,11 @@ theorem model_sound {S T : Type} [DecidableEq S] [DecidableEq T] (B : Builder S 
     explored or dropped, the grammar it returns contains only well-typed programs with at most
     `k` nodes and no forbidden pattern (seen through the n-gram). -/
 theorem C13_size_sound_partial (dsl : Dsl) (hwf : wfDsl dsl = true) (request : Ty) (k : Nat) (nG : Int) (actual : Bool)
-    (hyp : actual = true ∨ firstOrder dsl = true) (fuel : Nat) (g : TTG Ctx (Nat × Nat))
-    (h : sizeConstraint dsl request k nG actual fuel = .ok g) (t : Prog) (hin : PS.G.contains g.G t = true) :
+    (hyp : actual = true ∨ firstOrder dsl = true) (stackKey : Bool) (fuel : Nat) (g : TTG Ctx (Nat × Nat))
+    (h : sizeConstraint dsl request k nG actual stackKey fuel = .ok g) (t : Prog) (hin : PS.G.contains g.G t = true) :
     SizedVis dsl request nG k t = true := by
   unfold sizeConstraint at h
-  cases h0 : saturationTable (sizeBuilder dsl nG k actual) dsl.prims request fuel with
+  cases h0 : saturationTable (sizeBuilder dsl nG k actual) dsl.prims request stackKey fuel with
   | none => simp [h0] at h
   | some G0 =>
     simp only [h0] at h
@@ -184,7 +184,7 @@ theorem C13_size_sound_partial (dsl : Dsl) (hwf : wfDsl dsl = true) (request : T
       simp only [h1, Res.ok.injEq] at h
       subst h
       rw [C13_contains_run] at hin
-      have := model_sound (sizeBuilder dsl nG k actual) dsl request fuel G0 G h0 h1 t hin
+      have := model_sound (sizeBuilder dsl nG k actual) dsl request stackKey fuel G0 G h0 h1 t hin
       rw [← size_ideal_lang dsl hwf request nG k actual hyp t]
       exact this
     | fuel => simp [h1] at h
@@ -192,10 +192,10 @@ theorem C13_size_sound_partial (dsl : Dsl) (hwf : wfDsl dsl = true) (request : T
 
 /-- **soundness of `at_most_k`, unconditional** -/
 theorem C13_atmost_sound (dsl : Dsl) (hwf : wfDsl dsl = true) (request : Ty) (name : String) (k : Nat) (nG : Int)
-    (fuel : Nat) (g : TTG Ctx Nat) (h : atMostK dsl request name k nG fuel = .ok g) (t : Prog)
+    (stackKey : Bool) (fuel : Nat) (g : TTG Ctx Nat) (h : atMostK dsl request name k nG stackKey fuel = .ok g) (t : Prog)
     (hin : PS.G.contains g.G t = true) : AtMostOccVis dsl request nG name k t = true := by
   unfold atMostK at h
-  cases h0 : saturationTable (atMostBuilder dsl nG name k) dsl.prims request fuel with
+  cases h0 : saturationTable (atMostBuilder dsl nG name k) dsl.prims request stackKey fuel with
   | none => simp [h0] at h
   | some G0 =>
     simp only [h0] at h
@@ -204,7 +204,7 @@ theorem C13_atmost_sound (dsl : Dsl) (hwf : wfDsl dsl = true) (request : Ty) (na
       simp only [h1, Res.ok.injEq] at h
       subst h
       rw [C13_contains_run] at hin
-      have := model_sound (atMostBuilder dsl nG name k) dsl request fuel G0 G h0 h1 t hin
+      have := model_sound (atMostBuilder dsl nG name k) dsl request stackKey fuel G0 G h0 h1 t hin
       rw [← atMost_ideal_lang dsl hwf request nG name k t]
       exact this
     | fuel => simp [h1] at h
@@ -226,7 +226,7 @@ theorem C13_certified {S T : Type} [DecidableEq S] [DecidableEq T] (B : Builder 
     `Hyp_C13` = `subOK` (classifier of C13-F2: the table misses no non-terminal a derivation
     reaches) ∧ `actual ∨ firstOrder` (C13-F3) ∧ n-gram width ≥ 2 or unbounded (C13-F7).
     Full statement (false on the unchanged code, `finding_C13_F2`, `finding_C13_F3`):
-      sizeConstraint dsl request k n false fuel = .ok g → contains g.G t = Sized dsl request k t. -/
+      sizeConstraint dsl request k n false false fuel = .ok g → contains g.G t = Sized dsl request k t. -/
 theorem C13_size_partial (dsl : Dsl) (hwf : wfDsl dsl = true) (request : Ty) (k : Nat) (nG : Int) (actual : Bool)
     (G : TT Ctx (Nat × Nat)) (outs : AList (NT Ctx (Nat × Nat)) (List (Nat × Nat))) (dead : List (NT Ctx (Nat × Nat)))
     (hs : G.start = startOf (sizeBuilder dsl nG k actual) request)
@@ -240,7 +240,7 @@ theorem C13_size_partial (dsl : Dsl) (hwf : wfDsl dsl = true) (request : Ty) (k 
 
 /-- **occurrence-bounded grammars**: membership in a certified table of `at_most_k` ↔ `AtMostOcc`.
     Full statement (false on the unchanged code for the same reason as C13-F2):
-      atMostK dsl request name k n fuel = .ok g → contains g.G t = AtMostOcc dsl request name k t. -/
+      atMostK dsl request name k n false fuel = .ok g → contains g.G t = AtMostOcc dsl request name k t. -/
 theorem C13_atmost_partial (dsl : Dsl) (hwf : wfDsl dsl = true) (request : Ty) (name : String) (k : Nat) (nG : Int)
     (G : TT Ctx Nat) (outs : AList (NT Ctx Nat) (List Nat)) (dead : List (NT Ctx Nat))
     (hs : G.start = startOf (atMostBuilder dsl nG name k) request)
@@ -262,6 +262,14 @@ theorem C13_product {S T U V : Type} [DecidableEq S] [DecidableEq T] [DecidableE
     PS.G.contains (mulRaw G1 G2) t = (PS.G.contains G1 t && PS.G.contains G2 t) := by
   rw [C13_contains_run, C13_contains_run, C13_contains_run]
   exact mulRaw_lang G1 G2 hag hty t
+
+/-- the hypothesis `ArgsAgree` follows from the decidable `typedOK` of both factors (evaluated by
+    the driver on the implementation's factor tables in every product case) -/
+theorem C13_product_typed {S T U V : Type} [DecidableEq S] [DecidableEq T] [DecidableEq U] [DecidableEq V]
+    (G1 : TT S T) (G2 : TT U V) (h1 : typedOK G1 = true) (h2 : typedOK G2 = true)
+    (hty : G1.start.1 = G2.start.1) (t : Prog) :
+    PS.G.contains (mulRaw G1 G2) t = (PS.G.contains G1 t && PS.G.contains G2 t) :=
+  C13_product G1 G2 (argsAgree_of_typed G1 G2 h1 h2) hty t
 
 /-- … and the cleaned product `g1 * g2` contains only common programs (for every fuel) … -/
 theorem C13_product_sound {S T U V : Type} [DecidableEq S] [DecidableEq T] [DecidableEq U] [DecidableEq V]
@@ -336,16 +344,16 @@ theorem C13_count_partial {S T : Type} [DecidableEq S] [DecidableEq T] (G : TT S
 /-! ## type request -/
 
 /-- the grammar returned by the model of `size_constraint` reports the request it was compiled for -/
-theorem C13_type_request_size (dsl : Dsl) (request : Ty) (k : Nat) (n : Int) (a : Bool) (fuel : Nat)
-    (g : TTG Ctx (Nat × Nat)) (h : sizeConstraint dsl request k n a fuel = .ok g) : g.typeRequest = request := by
+theorem C13_type_request_size (dsl : Dsl) (request : Ty) (k : Nat) (n : Int) (a sk : Bool) (fuel : Nat)
+    (g : TTG Ctx (Nat × Nat)) (h : sizeConstraint dsl request k n a sk fuel = .ok g) : g.typeRequest = request := by
   unfold sizeConstraint at h
   split at h
   · cases h
   · split at h <;> cases h
     rfl
 
-theorem C13_type_request_atmost (dsl : Dsl) (request : Ty) (name : String) (k : Nat) (n : Int) (fuel : Nat)
-    (g : TTG Ctx Nat) (h : atMostK dsl request name k n fuel = .ok g) : g.typeRequest = request := by
+theorem C13_type_request_atmost (dsl : Dsl) (request : Ty) (name : String) (k : Nat) (n : Int) (sk : Bool) (fuel : Nat)
+    (g : TTG Ctx Nat) (h : atMostK dsl request name k n sk fuel = .ok g) : g.typeRequest = request := by
   unfold atMostK at h
   split at h
   · cases h
@@ -373,7 +381,7 @@ open Ex in
 /-- the hypotheses of C13_size_partial, C13_clean_partial and C13_count_partial hold on the table
     the model of `size_constraint` builds for {+, 1} / int / 3, with a certificate written by
     hand; `programs()` is 2, `(+ 1 1)` is a member, `(+ 1 (+ 1 1))` is not -/
-example : onTable (sizeConstraint small int 3 2 false 100) (fun G =>
+example : onTable (sizeConstraint small int 3 2 false false 100) (fun G =>
     G.start == startOf (sizeBuilder small 2 3 false) int &&
     subOK (rowDict (sizeBuilder small 2 3 false) small.prims int) G smallOuts [] &&
     closedOK G smallOuts smallRk &&
@@ -384,7 +392,7 @@ example : onTable (sizeConstraint small int 3 2 false 100) (fun G =>
 open Ex in
 /-- a product: size ≤ 3 times size ≤ 1 over {+, 1} contains `1` and not `(+ 1 1)`; the
     factors agree on argument types (C13_product applies) -/
-example : (match tableOf (sizeConstraint small int 3 2 false 100), tableOf (sizeConstraint small int 1 2 false 100) with
+example : (match tableOf (sizeConstraint small int 3 2 false false 100), tableOf (sizeConstraint small int 1 2 false false 100) with
     | some G1, some G2 =>
       PS.G.contains (mulRaw G1 G2) (leaf one) && !(PS.G.contains (mulRaw G1 G2) (.node plus [leaf one, leaf one])) &&
       PS.G.contains G1 (.node plus [leaf one, leaf one])
@@ -397,8 +405,11 @@ open Ex in
     reports 2 and no certificate exists: the table is not closed. -/
 theorem finding_C13_F2 :
     Sized sib c 4 fhxy = true ∧ Sized sib c 4 ghxz = true ∧
-    onTable (sizeConstraint sib c 4 2 false 1000) (fun G =>
-      !(PS.G.contains G fhxy) && PS.G.contains G ghxz && programs G 20 == some 2) = true := by decide +kernel
+    onTable (sizeConstraint sib c 4 2 false false 1000) (fun G =>
+      !(PS.G.contains G fhxy) && PS.G.contains G ghxz && programs G 20 == some 2) = true ∧
+    -- with the proposed repair (work list keyed by rule AND pending stack) both are members
+    onTable (sizeConstraint sib c 4 2 false true 1000) (fun G =>
+      PS.G.contains G fhxy && PS.G.contains G ghxz && programs G 20 == some 2) = true := by decide +kernel
 
 open Ex in
 /-- **finding C13-F3** on the model: `(map succ 1)` has 3 nodes but is not in
@@ -406,15 +417,15 @@ open Ex in
     with the proposed repair (`actual`) it is. -/
 theorem finding_C13_F3 :
     Sized ho int 3 mapsucc1 = true ∧
-    onTable (sizeConstraint ho int 3 2 false 1000) (fun G => !(PS.G.contains G mapsucc1)) = true ∧
-    onTable (sizeConstraint ho int 3 2 true 1000) (fun G => PS.G.contains G mapsucc1) = true := by decide +kernel
+    onTable (sizeConstraint ho int 3 2 false false 1000) (fun G => !(PS.G.contains G mapsucc1)) = true ∧
+    onTable (sizeConstraint ho int 3 2 true false 1000) (fun G => PS.G.contains G mapsucc1) = true := by decide +kernel
 
 open Ex in
 /-- **finding C13-F5** on the model: f : a → b → c with b uninhabited.  The language of
     `size_constraint(dsl, c, 4)` is {k}, but `clean()` keeps the rule `f` (its FIRST argument is
     fine), so `programs()` reports 2 and the derivation `f x _` cannot be completed. -/
 theorem finding_C13_F5 :
-    onTable (sizeConstraint unin c 4 2 false 1000) (fun G =>
+    onTable (sizeConstraint unin c 4 2 false false 1000) (fun G =>
       programs G 20 == some 2 && (langOf G 10).length == 1 && PS.G.contains G (leaf kc) &&
       (G.rule? (c, ([], (0, 0))) f).isSome &&
       !(AList.contains ((b, ([(f, 1)], (2, 1))) : NT Ctx (Nat × Nat)) G.rules)) = true := by decide +kernel
@@ -423,14 +434,14 @@ open Ex in
 /-- **finding C13-F6** on the model: an empty language (no rule left, not even for the start
     symbol) is reported as 1 program. -/
 theorem finding_C13_F6 :
-    onTable (sizeConstraint empty c 3 2 false 1000) (fun G => G.rules.isEmpty && programs G 20 == some 1) = true := by
+    onTable (sizeConstraint empty c 3 2 false false 1000) (fun G => G.rules.isEmpty && programs G 20 == some 1) = true := by
   decide +kernel
 
 open Ex in
 /-- **finding C13-F7** on the model: with `n_gram = 1` the forbidden `(+ (+ 1 1) 1)` is a member. -/
 theorem finding_C13_F7 :
     Sized arith int 5 bad = false ∧
-    onTable (sizeConstraint arith int 5 1 false 1000) (fun G => PS.G.contains G bad) = true ∧
-    onTable (sizeConstraint arith int 5 2 false 1000) (fun G => !(PS.G.contains G bad)) = true := by decide +kernel
+    onTable (sizeConstraint arith int 5 1 false false 1000) (fun G => PS.G.contains G bad) = true ∧
+    onTable (sizeConstraint arith int 5 2 false false 1000) (fun G => !(PS.G.contains G bad)) = true := by decide +kernel
 
 end PS.T
